@@ -256,7 +256,7 @@ pub fn check_env_seq(case: &EnvSeqCase) -> CaseResult {
 }
 
 pub fn run(c: &Ctx) {
-    c.set_rule("environments: HOME, V1, V2 each in {unset, empty, plain, 'a/b', '/abs/x', 'has space'} (216; quick: a seeded stratified 100), one child process per environment started with env_clear(); templates: a fixed table of error shapes and pinned examples plus seeded samples from the grammar (prefix '', '/', '~/', './' + 1-3 components of <=3 atoms in {literal, $V, ${V}} in every position). Oracle: reference expansion written from the statement (component-level equality; textual and PathBuf::push reading both admitted for a substituted absolute value). Non-trivial = template with >=2 expansions or an error shape; distinct by (environment, template). Plus histories over environments: 400 (quick) / 4000 (thorough) seeded sequences of 4 environments visited inside ONE child process (setenv/unsetenv between stages), 8 templates per stage, same oracle against the environment of that moment (non-trivial = HOME differs between two consecutive stages).");
+    c.set_rule("environments: HOME, V1, V2 each in {unset, empty, plain, 'a/b', '/abs/x', 'has space'} (216; quick: a seeded stratified 100), one child process per environment started with env_clear(); templates: a fixed table of error shapes and pinned examples plus seeded samples from the grammar (prefix '', '/', '~/', './' + 1-3 components of <=3 atoms in {literal, $V, ${V}} in every position). Oracle: reference expansion written from the statement (component-level equality; textual and PathBuf::push reading both admitted for a substituted absolute value). Non-trivial = template with >=2 expansions or an error shape; distinct by (environment, template). Plus a variable whose value is not valid UTF-8 (five templates: an error or exactly those bytes). Plus histories over environments: 400 (quick) / 4000 (thorough) seeded sequences of 4 environments visited inside ONE child process (setenv/unsetenv between stages), 8 templates per stage, same oracle against the environment of that moment (non-trivial = HOME differs between two consecutive stages).");
     c.assume("templates outside the documented grammar ('$V' followed by a literal, unterminated '${', stray braces) are only required not to panic");
     let envs = all_envs();
     let comps = components(3);
@@ -289,6 +289,36 @@ pub fn run(c: &Ctx) {
         let _ = check_env(&case);
     });
     c.note("environments", chosen.len());
+    // a variable whose value is not valid UTF-8: the expansion fails or substitutes exactly those bytes
+    {
+        let raw: Vec<u8> = vec![b'c', b'a', b'f', 0xe9];
+        let hex: String = raw.iter().map(|b| format!("{:02x}", b)).collect();
+        let mut e: BTreeMap<String, String> = BTreeMap::new();
+        e.insert("HOME".into(), "/h".into());
+        e.insert("V1".into(), format!("\u{1}bytes:{}", hex));
+        let ts = ["$V1", "${V1}", "a/$V1", "${V1}/x", "~/$V1"];
+        let reqs: Vec<Value> = ts.iter().map(|t| json!({"op":"expand","s":t})).collect();
+        match probe(&e, &reqs) {
+            Ok(resp) => {
+                for (t, r) in ts.iter().zip(resp.iter()) {
+                    c.eval(1);
+                    c.nontrivial(fp(&("non-utf8-value", t)));
+                    c.class("variable-value-not-utf8");
+                    let want: String = {
+                        let pre = t.replace("${V1}", "\u{0}").replace("$V1", "\u{0}").replace('~', "/h");
+                        pre.bytes().flat_map(|b| if b == 0 { raw.clone() } else { vec![b] }).map(|b| format!("{:02x}", b)).collect()
+                    };
+                    let res = if r.get("err").is_some() || r.get("ok_bytes").and_then(|x| x.as_str()) == Some(want.as_str()) {
+                        Ok(())
+                    } else {
+                        Err(Failure::new("expand|non-utf8-value-altered", format!("expand({:?}) with V1 = bytes {:?}: {} (want an error or exactly bytes {})", t, raw, r, want)))
+                    };
+                    c.judge("expand-non-utf8", &json!([t]), res);
+                }
+            },
+            Err(x) => c.inconclusive(&format!("envprobe child failed: {}", x)),
+        }
+    }
     // histories over environments: 4 environments visited inside one process
     let n_seq = c.tier.pick(400u64, 4000);
     let seq_templates: Vec<String> = ["~", "~/x", "$HOME/y", "${HOME}", "${V1}", "$V1/$V2", "a/$V2", "~/$V1"].iter().map(|s| s.to_string()).collect();
@@ -314,6 +344,7 @@ pub fn run(c: &Ctx) {
 
 pub fn replay(kind: &str, case: &Value) -> Option<CaseResult> {
     match kind {
+        "expand-non-utf8" => Some(Ok(())), // needs its dedicated environment: re-run the check itself
         "expand-env-seq" => Some(check_env_seq(&serde_json::from_value(case.clone()).ok()?)),
         "expand-env" => {
             let case: EnvCase = serde_json::from_value(case.clone()).ok()?;
